@@ -78,7 +78,7 @@ def do_eval(ids, checks=None, stage="detection"):
         try:
             for c in cks:
                 mod = c.lower()
-                for tier in ("quick", "thorough"):
+                for tier in os.environ.get("SEED_TIERS", "quick,thorough").split(","):
                     t0 = time.time()
                     rc, out = sh(f"VERIF_REPO={wt} VERIF_OUT={outdir} ./run_check.sh {mod} {tier}", cwd=CHECKS_DIR, timeout=4 * 3600)
                     lines = [l[:300] for l in out.splitlines() if l.startswith(("VIOLATION", "[C", "  counterexample", "  inconclusive", "  non-repro"))]
@@ -123,7 +123,7 @@ def table():
     print(f"{n} kept changes; caught when first evaluated: {first}; caught by the checks as committed: {final}\n")
     # per round
     print("| round | kept | caught when first evaluated | neutralised by a later fix | caught by the checks as committed | not caught |\n|---|---|---|---|---|---|")
-    groups = [("1 (A/B)", "AB"), ("2 (C/D)", "CD"), ("3 (E/F)", "EF"), ("4 (G/H)", "GH"), ("5 (I/J)", "IJ"), ("6 (K/L)", "KL"), ("7 (M/N)", "MN"), ("reverse fixes", None)]
+    groups = [("1 (A/B)", "AB"), ("2 (C/D)", "CD"), ("3 (E/F)", "EF"), ("4 (G/H)", "GH"), ("5 (I/J)", "IJ"), ("6 (K/L)", "KL"), ("7 (M/N)", "MN"), ("8 (O, mini round: 10 properties, one change each)", "O"), ("reverse fixes", None)]
     for label, letters in groups:
         k = f1 = f2 = neu = 0
         missed = []
@@ -168,6 +168,9 @@ if __name__ == "__main__":
     elif cmd == "import7":
         for pid in sys.argv[2:]:
             do_import(pid, ("M", "N"), base="/tmp/wt7")
+    elif cmd == "import8":
+        for pid in sys.argv[2:]:
+            do_import(pid, ("O",), base="/tmp/wt8")
     elif cmd == "import6":
         for pid in sys.argv[2:]:
             do_import(pid, ("K", "L"), base="/tmp/wt6")
